@@ -1,6 +1,7 @@
 SPECIFICATION FairSpec
 CONSTANTS DeferredStoreCancel = TRUE
+          TimeoutCancelInStore = TRUE
           PromptRunner = TRUE
-INVARIANTS TimeoutCtxErrConsistent PreCancelledRunsNothing OwnResultBeforeDeadline TimeoutKindAfterDeadline NoBlockedGoroutine ActionContextTriggered
+INVARIANTS StoreCancelReported TimeoutCtxErrConsistent PreCancelledRunsNothing OwnResultBeforeDeadline TimeoutKindAfterDeadline NoBlockedGoroutine ActionContextTriggered
 PROPERTIES RunnerReturns
 CHECK_DEADLOCK TRUE
